@@ -13,7 +13,7 @@ in the way list/pair/vector/closure nesting is.
 """
 import re
 
-from . import lib, heapmodel as hm
+from . import lib, heapmodel as hm, c04
 from .lib import CheckError
 
 SV = "steel::rvals::SteelVal"
@@ -90,6 +90,19 @@ def run(F, R, ctx):
                        "%s:%s" % (a["file"], a["line"]), sample={"drop_impl": a.get("drop")})
     R.floor("C18.a", "value kinds with an ownership cycle", n, 8)
 
+    # ---- d: the iterative drop handler descends into every owning field of every kind it takes apart
+    R.rule("C18.d", "IterativeDropHandler::visit_<kind> reads every value-owning field of the kind's payload (the fields it "
+                    "does not move onto its work-list are dropped by recursive drop glue)")
+    DROP_ALLOW = {
+        ("IterativeDropHandler", "ByteCodeLambda", "contract"): "a contract is a small fixed-shape struct, not a nesting constructor",
+        ("IterativeDropHandler", "StackFrame", "attachments"): "frame attachments hold one handler closure and a weak mark",
+        ("IterativeDropHandler", "StackFrameAttachments", "handler"): "see StackFrame.attachments",
+    }
+    c04.tracing_rule(F, R, "C18.d", ["IterativeDropHandler"], hm.handle_bearing(F), every_path=False, allow=DROP_ALLOW, floor=15)
+    dh = F.one(r"\{impl IterativeDropHandler(<'a>)?\}::bfs$")
+    R.inst("C18.d", "IterativeDropHandler::bfs runs the work-list visitor", bool(dh.call_blocks(r"::visit$")),
+           "IterativeDropHandler::bfs no longer drains its work-list", dh.loc(), sample=True)
+
     # ---- b
     ce, _ = F.graph()
     roots = {
@@ -125,7 +138,7 @@ def run(F, R, ctx):
         raise CheckError("anchor lost: RecursiveEqualityHandler::visit")
     fn = hv[0]
     sv_calls = fn.call_blocks(r"RecursiveEqualityHandler\}::should_visit$")
-    R.inst("C18.c", "RecursiveEqualityHandler::visit consults the visited set", len(sv_calls) >= 8,
+    R.inst("C18.c", "RecursiveEqualityHandler::visit consults the visited set", len(sv_calls) >= 14,
            "RecursiveEqualityHandler::visit calls should_visit only %d times (one pair per mutable/shared container kind "
            "expected): equality on cyclic structures may not terminate" % len(sv_calls), fn.loc(), sample={"calls": len(sv_calls)})
     depth = fn.call_blocks(r"rvals::cycles::eq_depth$") or [i for i, b in lib.family_calls(F, fn) if re.search(r"eq_depth$", b["callee"])]
